@@ -488,6 +488,13 @@ def stream_s3(cx):
             if " ok " in out or out.endswith(" ok"):
                 ok += 1
                 o = toks(out)
+                if cx.prop == "C04":
+                    # hypotheses and conclusion of C04.generated_bytes_well_formed on the real data
+                    cx.cov["floatok_checked"] = cx.cov.get("floatok_checked", 0) + int(o.get("floats", "0"))
+                    if o.get("floatok") == "0":
+                        cx.failing.append(("S3", case_of(req), "FloatOK_hypothesis_fails:a_float_the_generator_printed_is_not_a_newline_free_python_float_literal"))
+                    if o.get("wf") == "0":
+                        cx.failing.append(("S3", case_of(req), "model_output_not_well_formed(theorem_C04.generated_bytes_well_formed_contradicted?)"))
                 if cx.prop == "C11" and o.get("tbounds") == "0":
                     cx.failing.append(("S3", case_of(req), "target_%s_outside_bounds" % o.get("target")))
                 if cx.prop in ("C09", "C11", "C08") and len(cx.cov["samples"]) < 3:
@@ -495,6 +502,12 @@ def stream_s3(cx):
             elif " FAIL " in out:
                 bad.append((case_of(req), out))
     cx.cov["gen_exact_agreements"] = ok
+    if cx.prop == "C04":
+        h = [l for l in drive("hyps\n") if l.startswith("hyps ")]
+        ht = toks(h[0]) if h else {}
+        cx.cov["modsok_checked"] = int(ht.get("mods", "0"))
+        if ht.get("modsok") != "1" or int(ht.get("mods", "0")) == 0:
+            cx.corr.append(dict(stream="S3", count=1, first="ModsOK hypothesis of C04.generated_bytes_well_formed fails on /repo/data/stdlib_complete.txt: " + (h[0] if h else "no answer"), case="hyps"))
     cx.cov["traces_validated_against_impl"] += ok
     if cx.prop == "C09":
         cx.cov["distinct_nontrivial"] = max(cx.cov["distinct_nontrivial"], len(cx.seen))
